@@ -1,0 +1,13 @@
+//go:build verif
+
+// Contracts for package dialect (comment-only; read by /verif/govc).
+
+package dialect
+
+//@ func (*ReadWriter).GetMessage
+//@   requires rw != nil
+//@   ensures  (res != nil) == ufDialectHas(rw, id)
+//@   ensures  res != nil ==> res.CRCExtra() == ufDialectExtra(rw, id) && ufCodecId(res) == ufDialectCodec(rw, id)
+//@   modifies nothing
+//@   trusted
+//@   assumes  the message table is not modified after Initialize, so GetMessage is a function of (rw, id): ufDialectHas / ufDialectExtra / ufDialectCodec are DEFINED by its results
